@@ -949,6 +949,14 @@ func (dsc *dataStoreCommand) restore(keyName, serializedData string, ttl int64, 
 		return
 	}
 
+	// the type byte has to name exactly one type
+	switch bitflags(content[1]) {
+	case FLAG_KEY_TYPE_STRING, FLAG_KEY_TYPE_HASH_TABLE, FLAG_KEY_TYPE_SET, FLAG_KEY_TYPE_LIST:
+	default:
+		output.data = respErrorString("ERR DUMP payload version or checksum are wrong")
+		return
+	}
+
 	// the value length the payload declares has to fit in the payload
 	if declared := binary.BigEndian.Uint32(content[2:6]); declared > 0 && uint64(declared)-1 > uint64(len(content)-6) {
 		output.data = respErrorString("ERR DUMP payload version or checksum are wrong")
